@@ -545,6 +545,9 @@ impl<'a> SpecGen<'a> {
             }
         }
         if self.opts.docs && self.rng.chance(1, 4) { doc["externalDocs"] = json!({"url": "https://docs.example.com"}); }
+        // a third of the documents reaches the code under test with request bodies and responses declared under
+        // `components` and referenced (see `pipeline::wrap_refs`)
+        if self.names.len() % 3 == 1 { doc["x-lnv-wrap-refs"] = json!(true); self.feat("referenced_bodies_and_responses"); }
         doc
     }
 }
